@@ -25,7 +25,8 @@ type Mutant struct {
 	Key      string `json:"expect_construct,omitempty"` // substring of the reported construct
 	Benign   bool   `json:"benign,omitempty"`           // behaviour-preserving edit: the check must stay silent
 	Note     string `json:"note,omitempty"`
-	More     []Edit `json:"more,omitempty"` // further replacements of the same mutant (e.g. an import)
+	More     []Edit `json:"more,omitempty"`  // further replacements of the same mutant (e.g. an import)
+	Patch    string `json:"patch,omitempty"` // unified diff (path relative to the verification directory) applied instead of old/new
 }
 
 // Edit is an additional replacement.
@@ -116,14 +117,18 @@ func runMutants(self, repo, dir, prop string) []MutantResult {
 
 func runOne(self, repo string, m Mutant) MutantResult {
 	r := MutantResult{ID: m.ID, Rule: m.Rule, Benign: m.Benign, Note: m.Note}
-	src, err := os.ReadFile(filepath.Join(repo, m.File))
-	if err != nil {
-		r.Status, r.Detail = "skipped", err.Error()
-		return r
-	}
-	if n := strings.Count(string(src), m.Old); n != 1 {
-		r.Status, r.Detail = "skipped", fmt.Sprintf("context occurs %d times in %s (the source changed; mutant not applicable)", n, m.File)
-		return r
+	var src []byte
+	if m.Patch == "" {
+		var err error
+		src, err = os.ReadFile(filepath.Join(repo, m.File))
+		if err != nil {
+			r.Status, r.Detail = "skipped", err.Error()
+			return r
+		}
+		if n := strings.Count(string(src), m.Old); n != 1 {
+			r.Status, r.Detail = "skipped", fmt.Sprintf("context occurs %d times in %s (the source changed; mutant not applicable)", n, m.File)
+			return r
+		}
 	}
 	tmp, err := os.MkdirTemp("", "engmut-")
 	if err != nil {
@@ -138,7 +143,16 @@ func runOne(self, repo string, m Mutant) MutantResult {
 		r.Status, r.Detail = "skipped", err.Error()
 		return r
 	}
-	os.WriteFile(filepath.Join(work, m.File), []byte(strings.Replace(string(src), m.Old, m.New, 1)), 0o644)
+	if m.Patch != "" {
+		ap := exec.Command("git", "apply", filepath.Join(verifDirForMutants, m.Patch))
+		ap.Dir = work
+		if out, err := ap.CombinedOutput(); err != nil {
+			r.Status, r.Detail = "skipped", "patch does not apply to the current tree: "+strings.TrimSpace(string(out))
+			return r
+		}
+	} else {
+		os.WriteFile(filepath.Join(work, m.File), []byte(strings.Replace(string(src), m.Old, m.New, 1)), 0o644)
+	}
 	for _, e := range m.More {
 		b, err := os.ReadFile(filepath.Join(work, e.File))
 		if err != nil || strings.Count(string(b), e.Old) != 1 {
